@@ -50,6 +50,7 @@ static void chk_set(const struct ST_string *t, size_t t0_n, const char *t0_c, ch
         __CPROVER_assert(ST_LIVE == live0 - OWNS(t0_n) - (moved ? OWNS(b0_n) : 0) + OWNS(t->m_buffer.m_size) + (moved ? OWNS(b->m_size) : 0), "ST_string_set.postcondition.11: heap blocks: the target's old block is released (or lives on in the moved-from argument), nothing leaked");
     }
 }
+#ifndef SET_HELPERS_ONLY
 void h_str_set_copy(void)
 {
     str_ghosts(); struct ST_string t; mk_str(&t); SNAP_STR(&t, t0); struct ST_buffer_char b; mk_buf(&b); SNAP_BUF(&b, b0); ST_utf_validation_t v = any_validation(); long live0 = ST_LIVE;
@@ -176,3 +177,4 @@ void h_str_set_utf8_self(void)
     __CPROVER_assert(!(GI0 < n) || t.m_buffer.m_chars[GI0] == s_at, "ST_string_set_utf8_self.postcondition.3: the string holds the bytes the range held BEFORE the call, although the range lies in the string's own storage (the argument is copied before the old value is released)");
     __CPROVER_assert(ST_LIVE == live0 - OWNS(t0_n) + OWNS(n), "ST_string_set_utf8_self.postcondition.4: the old block is released exactly once; nothing leaked");
 }
+#endif /* SET_HELPERS_ONLY */
